@@ -146,7 +146,7 @@ impl RustDocument {
             return;
         }
 
-        let abbreviation = make_abbreviated_namespace(url, &self.namespaces);
+        let abbreviation = make_namespace_prefix(url, &self.namespaces);
 
         let rust_mod_name = create_mod_name_for_namespace(&abbreviation);
         let ns = Rc::new(Namespace {
@@ -192,7 +192,7 @@ impl RustDocument {
                 .find(|ns| ns.namespace == namespace)
                 .cloned()
                 .unwrap_or_else(|| {
-                    let abbreviation = make_abbreviated_namespace(namespace, &self.namespaces);
+                    let abbreviation = make_namespace_prefix(namespace, &self.namespaces);
                     let rust_mod_name = create_mod_name_for_namespace(&abbreviation);
 
                     Rc::new(Namespace {
@@ -348,12 +348,25 @@ where
     }
 }
 
+/// The prefix (and module name tail) for a namespace: its abbreviation, unless that starts with "xml". Prefixes that
+/// start so are reserved by XML itself and are never declared by an XML writer.
+fn make_namespace_prefix(namespace: &str, existing_namespaces: &[Rc<Namespace>]) -> String {
+    let abbreviation = make_abbreviated_namespace(namespace, existing_namespaces);
+    if abbreviation.starts_with("xml") {
+        unique_abbreviation(&format!("ns{}", abbreviation_of(namespace)), existing_namespaces)
+    } else {
+        abbreviation
+    }
+}
+
 fn make_abbreviated_namespace(namespace: &str, existing_namespaces: &[Rc<Namespace>]) -> String {
+    unique_abbreviation(&abbreviation_of(namespace), existing_namespaces)
+}
+
+fn abbreviation_of(namespace: &str) -> String {
     fn take_three_chars_max(namespace: &str) -> String {
         namespace.chars().filter(|c| c.is_ascii_alphanumeric()).take(3).collect()
     }
-
-    let mut append: Option<usize> = None;
 
     fn is_name_char(c: char) -> bool {
         c.is_ascii_alphanumeric()
@@ -373,17 +386,21 @@ fn make_abbreviated_namespace(namespace: &str, existing_namespaces: &[Rc<Namespa
     // the abbreviation is used as XML prefix and as part of a Rust module name: ASCII letters and digits only,
     // starting with a letter
     let abbreviation: String = abbreviation.to_lowercase().chars().filter(|c| is_name_char(*c)).collect();
-    let abbreviation = if abbreviation.chars().next().is_some_and(|c| c.is_ascii_alphabetic()) {
+    if abbreviation.chars().next().is_some_and(|c| c.is_ascii_alphabetic()) {
         abbreviation
     } else {
         format!("ns{abbreviation}")
-    };
+    }
+}
+
+fn unique_abbreviation(abbreviation: &str, existing_namespaces: &[Rc<Namespace>]) -> String {
+    let mut append: Option<usize> = None;
 
     loop {
         let use_abbreviation = if let Some(append) = append {
             format!("{abbreviation}{append}")
         } else {
-            abbreviation.clone()
+            abbreviation.to_string()
         };
 
         if !existing_namespaces.iter().any(|ns| ns.abbreviation == use_abbreviation) {
